@@ -3,6 +3,7 @@ CONSTANTS
   Fillers = {"none", "bool", "uint8", "uint16", "uint32", "uint64", "text"}
   Kinds = {"bool", "int8", "int16", "int32", "int64", "uint8", "uint16", "uint32", "uint64", "float32", "float64", "enum", "void", "text", "data", "struct", "list", "anyptr"}
   Followers = {"bool", "uint64", "text"}
-  Members = {"plain", "union", "group", "gunion"}
+  Members = {"plain", "union", "group", "gunion", "union2"}
+  GroupExtra = {0, 3}
 INVARIANTS Consistent Emit
 CHECK_DEADLOCK FALSE
